@@ -415,3 +415,221 @@ Proof.
     apply nth_error_nth'. unfold ad_opt_trace. rewrite trace_length. exact Hlt.
 Qed.
 End ADUPsweep.
+
+(* ================================================================ Kaczmarz *)
+Section KZsweep.
+Variables (proj : Rvec -> Rvec) (junk : string -> Rvec) (dflt : @kzop R).
+Variable ops : list (@kzop R).
+Variable rkey : nat -> nat.            (* range class of operator j: which entry of tmp_rans it uses *)
+Variable nkeys : nat.
+Hypothesis keys_ok : forall j, (j < List.length ops)%nat -> (rkey j < nkeys)%nat.
+Definition kzI (j : nat) : interp := kz_I proj (nth j ops dflt) junk.
+Definition kz_body : list lstmt := match kaczmarz_lbody with IFor b :: _ => b | _ => [] end.
+Lemma kz_shape : kaczmarz_lbody = [IFor kz_body; IStmt (LCallback (RVar "x"))].
+Proof. reflexivity. Qed.
+Definition kz_n : nat := List.length ops.
+
+(* loop-head store: x, the temporary tmp_dom, the caller's rhs list (read only), the dict of temporaries *)
+Definition kz_store (s : @lst R) (x : Rvec) : Prop :=
+  vget (l_venv s) "x" = Some (OCaller "x") /\ vget (l_venv s) "tmp_dom" = Some (OFresh 0)
+  /\ lget (l_lenv s) "rhs" = Some KArg /\ lget (l_lenv s) "tmp_rans" = Some KDict
+  /\ hget (l_heap s) (OCaller "x") = Some x
+  /\ (exists td, hget (l_heap s) (OFresh 0) = Some td)
+  /\ (forall j, (j < kz_n)%nat -> hget (l_heap s) (OArg "rhs" j) = Some (kz_rhs (nth j ops dflt)))
+  /\ (forall k, (k < nkeys)%nat -> exists t, hget (l_heap s) (ODict "tmp_rans" k) = Some t)
+  /\ (1 <= l_next s)%nat.
+
+Lemma kz_step_heap j s x : kz_store s x -> (j < kz_n)%nat ->
+  exists s', lexec (kzI j) rkey j kz_body s = Some s' /\ kz_store s' (kz_one proj (nth j ops dflt) x)
+    /\ l_log s' = l_log s.
+Proof.
+  destruct s as [ve le h nx log]. intros (Hv & Hvt & Hl1 & Hl2 & Hx & (td & Htd) & Hr & Ht & Hnx) Hj.
+  cbn [l_venv l_lenv l_heap l_next l_log] in *.
+  destruct (Ht (rkey j) (keys_ok j Hj)) as (t & Htj). pose proof (Hr j Hj) as Hrj.
+  eexists. split.
+  - cbv [kz_body kaczmarz_lbody]. unfold lexec. lsym. reflexivity.
+  - split; [|reflexivity]. unfold kz_store. cbn [l_venv l_lenv l_heap l_next].
+    split; [lsym; reflexivity|]. split; [lsym; reflexivity|]. split; [exact Hl1|]. split; [exact Hl2|].
+    split; [lsym; reflexivity|]. split; [eexists; lsym; reflexivity|]. split; [|split; [|exact Hnx]].
+    + intros i Hi. rewrite !hget_hset_other by oid_neq. apply Hr, Hi.
+    + intros k Hk. destruct (Nat.eq_dec k (rkey j)) as [->|Hne].
+      * eexists. lsym. reflexivity.
+      * destruct (Ht k Hk) as (t' & Ht'). exists t'. rewrite !hget_hset_other by oid_neq. exact Ht'.
+Qed.
+
+Lemma kz_loop : forall rem j0 s x, (j0 + rem = kz_n)%nat -> kz_store s x ->
+  exists s', lfor kzI rkey kz_body j0 rem s = Some s'
+    /\ kz_store s' (fst (kz_sweep proj (skipn j0 ops) x)) /\ l_log s' = l_log s.
+Proof.
+  induction rem as [|rem IH]; intros j0 s x Hn Hs.
+  - exists s. cbn [lfor]. unfold kz_n in Hn. rewrite skipn_all2 by lia. cbn [kz_sweep fst]. auto.
+  - cbn [lfor]. destruct (kz_step_heap j0 s x Hs ltac:(lia)) as (s1 & E1 & Hs1 & Hlog1). rewrite E1. cbn [obind].
+    destruct (IH (S j0) s1 _ ltac:(lia) Hs1) as (s2 & E2 & Hs2 & Hlog2).
+    exists s2. split; [exact E2|]. split; [|congruence].
+    rewrite (skipn_nth_cons ops dflt j0) by (unfold kz_n in Hn; lia). cbn [kz_sweep].
+    destruct (kz_sweep proj (skipn (S j0) ops) (kz_one proj (nth j0 ops dflt) x)) as [xf tr]. exact Hs2.
+Qed.
+
+Lemma kz_outer s x : kz_store s x ->
+  exists s', litems kzI rkey kz_n kaczmarz_lbody s = Some s'
+    /\ kz_store s' (kz_step proj ops x) /\ l_log s' = (l_log s ++ [kz_step proj ops x])%list.
+Proof.
+  intros Hs. rewrite kz_shape. cbn [litems].
+  destruct (kz_loop kz_n 0 s x eq_refl Hs) as (s1 & E1 & Hs1 & Hlog1). rewrite E1. cbn [obind skipn] in *.
+  fold (kz_step proj ops x) in Hs1.
+  destruct s1 as [ve le h nx log]. pose proof Hs1 as (Hv & Hvt & Hl1 & Hl2 & Hx & Hrest).
+  cbn [lexec1 resolve l_venv l_heap l_lenv l_next l_log] in *. rewrite Hv. cbn [obind]. rewrite Hx. cbn [obind].
+  eexists. split; [reflexivity|]. split; [|cbn [l_log]; congruence].
+  unfold kz_store in *. cbn [l_venv l_lenv l_heap l_next] in *. exact Hs1.
+Qed.
+Lemma kz_iterate : forall niter s x, kz_store s x ->
+  exists s', liter niter (litems kzI rkey kz_n kaczmarz_lbody) s = Some s'
+    /\ kz_store s' (iter niter (kz_step proj ops) x)
+    /\ l_log s' = (l_log s ++ trace (fun x => x) niter (kz_step proj ops) x)%list.
+Proof.
+  induction niter as [|niter IH]; intros s x Hs.
+  - exists s. cbn [liter iter trace]. rewrite app_nil_r. auto.
+  - cbn [liter iter trace]. destruct (kz_outer s x Hs) as (s1 & E1 & Hs1 & Hlog1). rewrite E1. cbn [obind].
+    destruct (IH s1 _ Hs1) as (s2 & E2 & Hs2 & Hlog2).
+    exists s2. split; [exact E2|]. split; [exact Hs2|]. rewrite Hlog2, Hlog1, <- app_assoc. reflexivity.
+Qed.
+
+(* the caller passes x and the list rhs *)
+Definition kz_init (x : Rvec) : @lst R :=
+  mk_lst [("x", OCaller "x")] [("rhs", KArg)]
+         (fun o => match o with
+                   | OCaller "x" => Some x
+                   | OArg "rhs" j => if Nat.ltb j kz_n then Some (kz_rhs (nth j ops dflt)) else None
+                   | _ => None
+                   end) 0 [].
+Lemma kz_pre_ok x : exists s, pexec kzI rkey kz_n nkeys kaczmarz_lpre (kz_init x) = Some s /\ kz_store s x /\ l_log s = [].
+Proof.
+  eexists. split; [reflexivity|]. split; [|reflexivity].
+  unfold kz_store. cbn [l_venv l_lenv l_heap l_next]. repeat split; try (cbn; lia).
+  - eexists. unfold hget, hset. cbn. reflexivity.
+  - intros j Hj. unfold hget, hset. cbn -[Nat.ltb]. apply Nat.ltb_lt in Hj. rewrite Hj. reflexivity.
+  - intros k Hk. eexists. unfold hget, hset. cbn -[Nat.ltb]. apply Nat.ltb_lt in Hk. rewrite Hk. reflexivity.
+Qed.
+Lemma gen_kaczmarz_run niter x :
+  exists s, lrun kzI rkey kz_n nkeys kaczmarz_lpre kaczmarz_lbody niter (kz_init x) = Some s
+    /\ l_log s = trace (fun x => x) niter (kz_step proj ops) x
+    /\ hget (l_heap s) (OCaller "x") = Some (iter niter (kz_step proj ops) x).
+Proof.
+  destruct (kz_pre_ok x) as (s0 & E0 & Hs0 & Hlog0).
+  destruct (kz_iterate niter s0 x Hs0) as (s1 & E1 & Hs1 & Hlog1).
+  exists s1. unfold lrun. rewrite E0. cbn [obind]. split; [exact E1|]. split.
+  - rewrite Hlog1, Hlog0. reflexivity.
+  - destruct Hs1 as (_ & _ & _ & _ & Hx & _). exact Hx.
+Qed.
+End KZsweep.
+
+(* ================================================================== OSMLEM *)
+Section EMsweep.
+Variables (eps : R) (junk : string -> Rvec) (dflt : @emop R).
+Variable ops : list (@emop R).
+Variable mdim : nat -> nat.            (* size of the range of operator j *)
+(* the default sensitivities are the ones the preamble computes *)
+Hypothesis sens_default : forall j, (j < List.length ops)%nat ->
+  em_sens (nth j ops dflt) = em_default_sens eps (em_Aadj (nth j ops dflt)) (mdim j).
+Definition emI (j : nat) : interp :=
+  let o := nth j ops dflt in
+  mk_I [("eps", eps)] [("op[i]", em_A o); ("op[i].adjoint", em_Aadj o); ("op[j].adjoint", em_Aadj o);
+                       ("ones_like", map (fun _ => 1))] [] [("op[j].range", vzero (mdim j))] junk.
+Definition em_body : list lstmt := match osmlem_lbody with IFor b :: _ => b | _ => [] end.
+Lemma em_shape : osmlem_lbody = [IFor em_body].
+Proof. reflexivity. Qed.
+Definition em_n : nat := List.length ops.
+
+Definition em_store (s : @lst R) (x : Rvec) : Prop :=
+  vget (l_venv s) "x" = Some (OCaller "x") /\ vget (l_venv s) "tmp_dom" = Some (OFresh 0)
+  /\ lget (l_lenv s) "data" = Some KComp /\ lget (l_lenv s) "sensitivities" = Some KComp
+  /\ lget (l_lenv s) "tmp_ran" = Some KComp
+  /\ hget (l_heap s) (OCaller "x") = Some x
+  /\ (exists td, hget (l_heap s) (OFresh 0) = Some td)
+  /\ (forall j, (j < em_n)%nat -> hget (l_heap s) (OList "data" j) = Some (em_data (nth j ops dflt)))
+  /\ (forall j, (j < em_n)%nat -> hget (l_heap s) (OList "sensitivities" j) = Some (em_sens (nth j ops dflt)))
+  /\ (forall j, (j < em_n)%nat -> exists t, hget (l_heap s) (OList "tmp_ran" j) = Some t).
+
+Lemma em_step_heap j s x : em_store s x -> (j < em_n)%nat ->
+  exists s', lexec (emI j) (fun _ => 0%nat) j em_body s = Some s' /\ em_store s' (em_one eps (nth j ops dflt) x)
+    /\ l_log s' = (l_log s ++ [em_one eps (nth j ops dflt) x])%list.
+Proof.
+  destruct s as [ve le h nx log]. intros (Hv & Hvt & Hl1 & Hl2 & Hl3 & Hx & (td & Htd) & Hd & Hse & Ht) Hj.
+  cbn [l_venv l_lenv l_heap l_next l_log] in *.
+  destruct (Ht j Hj) as (t & Htj). pose proof (Hd j Hj) as Hdj. pose proof (Hse j Hj) as Hsj.
+  eexists. split.
+  - cbv [em_body osmlem_lbody]. unfold lexec. lsym. reflexivity.
+  - split; [|reflexivity]. unfold em_store. cbn [l_venv l_lenv l_heap l_next].
+    split; [exact Hv|]. split; [exact Hvt|]. split; [exact Hl1|]. split; [exact Hl2|]. split; [exact Hl3|].
+    split; [lsym; reflexivity|]. split; [eexists; lsym; reflexivity|]. split; [|split].
+    + intros i Hi. rewrite !hget_hset_other by oid_neq. apply Hd, Hi.
+    + intros i Hi. rewrite !hget_hset_other by oid_neq. apply Hse, Hi.
+    + intros i Hi. destruct (Nat.eq_dec i j) as [->|Hne].
+      * eexists. lsym. reflexivity.
+      * destruct (Ht i Hi) as (t' & Ht'). exists t'. rewrite !hget_hset_other by oid_neq. exact Ht'.
+Qed.
+
+Lemma em_loop : forall rem j0 s x, (j0 + rem = em_n)%nat -> em_store s x ->
+  exists s', lfor emI (fun _ => 0%nat) em_body j0 rem s = Some s'
+    /\ em_store s' (fst (em_sweep eps (skipn j0 ops) x))
+    /\ l_log s' = (l_log s ++ snd (em_sweep eps (skipn j0 ops) x))%list.
+Proof.
+  induction rem as [|rem IH]; intros j0 s x Hn Hs.
+  - exists s. cbn [lfor]. unfold em_n in Hn. rewrite skipn_all2 by lia. cbn [em_sweep fst snd]. rewrite app_nil_r. auto.
+  - cbn [lfor]. destruct (em_step_heap j0 s x Hs ltac:(lia)) as (s1 & E1 & Hs1 & Hlog1). rewrite E1. cbn [obind].
+    destruct (IH (S j0) s1 _ ltac:(lia) Hs1) as (s2 & E2 & Hs2 & Hlog2).
+    exists s2. split; [exact E2|].
+    rewrite (skipn_nth_cons ops dflt j0) by (unfold em_n in Hn; lia). cbn [em_sweep].
+    destruct (em_sweep eps (skipn (S j0) ops) (em_one eps (nth j0 ops dflt) x)) as [xf tr]. cbn [fst snd] in *.
+    split; [exact Hs2|]. rewrite Hlog2, Hlog1, <- app_assoc. reflexivity.
+Qed.
+
+Lemma em_iterate : forall niter s x, em_store s x ->
+  exists s', liter niter (litems emI (fun _ => 0%nat) em_n osmlem_lbody) s = Some s'
+    /\ em_store s' (iter niter (em_step eps ops) x)
+    /\ l_log s' = (l_log s ++ em_trace eps ops niter x)%list.
+Proof.
+  induction niter as [|niter IH]; intros s x Hs.
+  - exists s. cbn [liter iter em_trace]. rewrite app_nil_r. auto.
+  - cbn [liter iter em_trace]. 
+    assert (Ho : exists s1, litems emI (fun _ => 0%nat) em_n osmlem_lbody s = Some s1
+                  /\ em_store s1 (em_step eps ops x) /\ l_log s1 = (l_log s ++ snd (em_sweep eps ops x))%list).
+    { rewrite em_shape. cbn [litems]. destruct (em_loop em_n 0 s x eq_refl Hs) as (s1 & E1 & Hs1 & Hlog1).
+      rewrite E1. cbn [obind skipn] in *. exists s1. auto. }
+    destruct Ho as (s1 & E1 & Hs1 & Hlog1). rewrite E1. cbn [obind].
+    destruct (IH s1 _ Hs1) as (s2 & E2 & Hs2 & Hlog2).
+    exists s2. split; [exact E2|]. split; [exact Hs2|].
+    rewrite Hlog2, Hlog1, <- app_assoc. unfold em_step. destruct (em_sweep eps ops x) as [xf tr]. reflexivity.
+Qed.
+
+Definition em_init (x : Rvec) : @lst R :=
+  mk_lst [("x", OCaller "x")] [("data", KArg)]
+         (fun o => match o with
+                   | OCaller "x" => Some x
+                   | OArg "data" j => if Nat.ltb j em_n then Some (em_data (nth j ops dflt)) else None
+                   | _ => None
+                   end) 0 [].
+Lemma ones_like_zero m : map (fun _ : R => 1) (vzero m) = vconst m 1.
+Proof. unfold vzero, vconst. induction m; cbn; [reflexivity | now f_equal]. Qed.
+Lemma em_pre_ok x : exists s, pexec emI (fun _ => 0%nat) em_n 0 osmlem_lpre (em_init x) = Some s /\ em_store s x /\ l_log s = [].
+Proof.
+  eexists. split; [reflexivity|]. split; [|reflexivity].
+  unfold em_store. cbn [l_venv l_lenv l_heap l_next]. repeat split.
+  - eexists. unfold hget, hset. cbn. reflexivity.
+  - intros j Hj. unfold hget, hset. cbn -[Nat.ltb]. pose proof Hj as Hj'. apply Nat.ltb_lt in Hj'. rewrite !Hj'. reflexivity.
+  - intros j Hj. unfold hget, hset. cbn -[Nat.ltb vzero vmaxc]. pose proof Hj as Hj'. apply Nat.ltb_lt in Hj'. rewrite Hj'.
+    rewrite (sens_default j Hj). unfold em_default_sens. rewrite ones_like_zero. reflexivity.
+  - intros j Hj. eexists. unfold hget, hset. cbn -[Nat.ltb]. apply Nat.ltb_lt in Hj. rewrite Hj. reflexivity.
+Qed.
+Lemma gen_osmlem_run niter x :
+  exists s, lrun emI (fun _ => 0%nat) em_n 0 osmlem_lpre osmlem_lbody niter (em_init x) = Some s
+    /\ l_log s = em_trace eps ops niter x
+    /\ hget (l_heap s) (OCaller "x") = Some (iter niter (em_step eps ops) x).
+Proof.
+  destruct (em_pre_ok x) as (s0 & E0 & Hs0 & Hlog0).
+  destruct (em_iterate niter s0 x Hs0) as (s1 & E1 & Hs1 & Hlog1).
+  exists s1. unfold lrun. rewrite E0. cbn [obind]. split; [exact E1|]. split.
+  - rewrite Hlog1, Hlog0. reflexivity.
+  - destruct Hs1 as (_ & _ & _ & _ & _ & Hx & _). exact Hx.
+Qed.
+End EMsweep.
